@@ -63,10 +63,16 @@ func (a *application) start(mode gen.ApplicationMode, options gen.ApplicationOpt
 
 		pid, err := a.node.spawn(item.Factory, opts)
 		if err != nil {
+			// do not kill while iterating: Kill calls back into
+			// a.terminate, which takes the write lock of the group
+			started := []gen.PID{}
 			a.group.Range(func(pid gen.PID, _ bool) bool {
-				a.node.Kill(pid)
+				started = append(started, pid)
 				return true
 			})
+			for _, pid := range started {
+				a.node.Kill(pid)
+			}
 			atomic.StoreInt32(&a.state, int32(gen.ApplicationStateLoaded))
 			return err
 		}
@@ -120,14 +126,20 @@ func (a *application) stop(force bool, timeout time.Duration) error {
 	// update mode to prevent triggering 'permantent' mode
 	a.mode = gen.ApplicationModeTemporary
 
+	// do not kill while iterating: Kill calls back into
+	// a.terminate, which takes the write lock of the group
+	members := []gen.PID{}
 	a.group.Range(func(pid gen.PID, _ bool) bool {
+		members = append(members, pid)
+		return true
+	})
+	for _, pid := range members {
 		if force {
 			a.node.Kill(pid)
 		} else {
 			a.node.SendExit(pid, gen.TerminateReasonShutdown)
 		}
-		return true
-	})
+	}
 
 	if force {
 		a.reason = gen.TerminateReasonKill
